@@ -122,11 +122,21 @@ def dyadic(rng, lo, hi, bits=4):
 U_CHOICES = (1.0, 1.0, 1.0625, 1.5, 2.0, 1 + 2.0 ** -20, 1.25, 1.015625, 0.75, 0.9375)  # u < 1: polling a super-majority with share > 1/2
 
 
-def gen_cfg(rng, combo=None, finite=None, n_max=12, allow_not_random=True, u=None, t=None, allow_default_eta=False):
-    """A configuration inside the documented parameter ranges of its (test, estimator/bet)."""
+U_NONDYADIC = (4 / 3, 1.2, 2 / 1.9, 2 / 1.7, 1.1, 0.7, 2 / 1.95, 1.3, 1 / 1.2)
+
+
+def gen_cfg(rng, combo=None, finite=None, n_max=12, allow_not_random=True, u=None, t=None, allow_default_eta=False,
+            nondyadic_u=0.0):
+    """A configuration inside the documented parameter ranges of its (test, estimator/bet).  nondyadic_u: share of
+    configurations whose bound (and sometimes null mean) is not a dyadic rational - for monitors that do not need
+    exact sums (ranges, well-formedness, non-anticipation)."""
     test, estim, bet = combo if combo else rng.choice(COMBOS)
     if u is None:
         u = rng.choice(U_CHOICES)
+        if nondyadic_u and rng.random() < nondyadic_u:
+            u = rng.choice(U_NONDYADIC)
+            if t is None and rng.random() < 0.5:
+                t = rng.choice((0.6, 0.45, 0.3, 0.55, 0.35))
     if estim == "optimal_comparison" and u <= 1 and rng.random() < 0.8:
         # mostly the comparison-audit regime u > 1; u <= 1 (CVRs that do not satisfy the assertion) stays in at 20 %
         u = rng.choice((1.0625, 1.5, 2.0, 1 + 2.0 ** -20, 1.25, 1.015625, 1 + 2.0 ** -10))
